@@ -516,7 +516,11 @@ func (w *World) followFork(f *forkRep, h int64) {
 			if pe, ok := err.(*PanicError); ok {
 				w.violate("crash.follow-panic", []string{"C08"}, nh, "%s: applying block %d afterwards panics: %s @ %s", f.Origin, nh, pe.Val, pe.Stack)
 			} else {
-				w.violate("crash.follow-diverged", []string{"C08"}, nh, "%s: cannot apply block %d afterwards: %v", f.Origin, nh, err)
+				props := []string{"C08"}
+				if strings.Contains(err.Error(), "ValidatorsHash") {
+					props = append(props, "C10") // the fold of the validator updates differs from the never-crashed node's
+				}
+				w.violate("crash.follow-diverged", props, nh, "%s: cannot apply block %d afterwards: %v", f.Origin, nh, err)
 			}
 			r.Close()
 			f.R = nil
@@ -528,7 +532,7 @@ func (w *World) followFork(f *forkRep, h int64) {
 				w.violate("crash.follow-apphash", []string{"C08"}, nh, "%s: app hash at %d is %x, never-crashed node has %x", f.Origin, nh, b.AppHash, a.AppHash)
 			}
 			if digestValUpdates(a.EndBlock.ValidatorUpdates) != digestValUpdates(b.EndBlock.ValidatorUpdates) {
-				w.violate("crash.follow-valupdates", []string{"C08", "C07"}, nh, "%s: validator updates at %d differ: %s vs %s", f.Origin, nh, digestValUpdates(b.EndBlock.ValidatorUpdates), digestValUpdates(a.EndBlock.ValidatorUpdates))
+				w.violate("crash.follow-valupdates", []string{"C08", "C07", "C10"}, nh, "%s: validator updates at %d differ: %s vs %s", f.Origin, nh, digestValUpdates(b.EndBlock.ValidatorUpdates), digestValUpdates(a.EndBlock.ValidatorUpdates))
 			}
 		}
 	}
